@@ -257,4 +257,26 @@ CHECKS = {
              "thorough": {"checks": 8000, "shards": 16, "timeout": 3400}},
         ],
     },
+    "C11": {
+        "level": "exploration",
+        "level_text": ("The real Hub is run under a deterministic scheduler: worker goroutines yield to a controller before every "
+                       "operation and at every verif hook point of the hub (peer list copied / connection unlinked / before the "
+                       "empty-session collection / session closed / Add entered - all outside the mutex), and exactly one worker runs "
+                       "at a time, so an execution is a function of the choice sequence. For a bounded program family (pairs, thorough: "
+                       "triples, of short scripts over one session) EVERY schedule is enumerated; random programs (2-4 workers x 1-3 "
+                       "operations, 2 sessions, 3 peer ids incl. replacement) get random schedules. Oracle: no worker panics, none "
+                       "deadlocks, a connection that was added and never removed/replaced/closed is listed and routable, a connection "
+                       "whose remove returned is not listed, and no hub state remains for a session all of whose connections left."),
+        "level_note": "Preemption inside a locked phase is not explored (the lock makes it unobservable); the per-connection writer goroutines run freely.",
+        "technique": "controlled-schedule exploration (stateless DFS over scheduler choices at hook points, exhaustive for a bounded program family) + rapid-generated programs and schedules; invariant oracle with white-box read of the hub maps",
+        "rule": ("case = program x schedule. Non-trivial = a schedule in which some worker was parked between the phases of an operation "
+                 "while another worker ran (overlap); distinct by program (exhaustive unit: all its schedules are run) or program+schedule."),
+        "assumptions": ["hook points are the only preemption points considered"],
+        "exhaustive_if_units": ["exhaustive"],
+        "units": [
+            {"name": "peers", "pkg": "./internal/peers", "run": "^TestVerifC11",
+             "quick": {"checks": 8000, "shards": 4, "timeout": 900},
+             "thorough": {"checks": 20000, "shards": 16, "timeout": 3400}},
+        ],
+    },
 }
